@@ -72,9 +72,17 @@ def run(chk, driver, tier):
             lits.append("".join(tup))
     if tier != "thorough":
         lits += ["".join(rng.choice(META + ["a", "1", " "]) for _ in range(3)) for _ in range(3000)]
+    FRAGS = ["{,2}", "{2}", "{2,}", "{1,3}", "{,}", "{0}", "(?:x)", "(?P<n>x)", "[a-z]", "[^a]", "a*", ".+", "x?", "a|b", "(a|b)", "\\[x\\]", "a{2}b", "s{,2} =",
+             "1.2", "c++", "(c)", "{x}", "{}", "[]".replace("[", "\\[").replace("]", "\\]"), "**", "??", "+?", "*?", ".*", "a.b", "()", "{1", "2}"]
+    FRAGS = [f.replace("\\[", "[").replace("\\]", "]") for f in FRAGS]
+    for f in FRAGS:
+        lits += [f, "retrie" + f, f + " = ", "x" + f + "y"]
     for _ in range(20000 if tier == "thorough" else 1500):
         n = rng.randint(1, 40)
-        lits.append("".join(rng.choice(META * 3 + ALPHABET) for _ in range(n)))
+        if rng.random() < 0.4:
+            lits.append("".join(rng.choice(FRAGS + ["a", "b", " ", "s", "="]) for _ in range(rng.randint(1, 6))))
+        else:
+            lits.append("".join(rng.choice(META * 3 + ALPHABET) for _ in range(n)))
     chk.exhaustive = True
     seen = {}
     ops = []
